@@ -322,6 +322,11 @@ class _ListDict_(object):
                 #an empty collection has total weight exactly 0; without this a
                 #floating point residue keeps `total_weight()>0` true.
                 self._total_weight = 0
+            elif self._total_weight <= 0:
+                #rounding can absorb weights that are many orders of magnitude 
+                #smaller than the others; the running total then reaches 0 
+                #while positively weighted items remain.  Recompute it.
+                self._total_weight = sum(self.weight.values())
             if weight == self.max_weight:  
                 #if we find ourselves in this case often
                 #it may be better just to let max_weight be the
